@@ -1,5 +1,5 @@
 (* C06: COBS-framed output is one well-formed frame and decodes back, frame by frame. *)
-From PV Require Import Base MachineInt DataModel Ser De Cobs CobsRef SerFlavors DeFlavors CobsEncFacts Sinks Thresholds.
+From PV Require Import Base MachineInt DataModel Ser De Cobs CobsRef SerFlavors DeFlavors CobsEncFacts Sinks Thresholds Cobs Crc SerFlavors ModDecl GenModifiers ModInterp ModFacts.
 Open Scope N_scope.
 
 (* the streaming encoder with its placeholder back-patching, on growable storage, produces
@@ -56,6 +56,27 @@ Example C06_example :
   length (cobs_frame (repeat 9 254)) = 257%nat /\ length (cobs_frame (repeat 9 253)) = 255%nat.
 Proof. repeat split; vm_compute; reflexivity. Qed.
 
+(* the COBS modifier of these theorems is the code: try_push and finalize of ser/flavors.rs's
+   Cobs<B> are re-read from the source on every run (the match on the encoder's push result with
+   each arm's writes, which results are propagated with `?`) and interpreted over any inner flavour *)
+Theorem C06_cobs_try_push_is_the_source : forall (St Out : Type) (inner : sflavor St Out) (alg : crc_alg) (nb : nat)
+    (s : St) (e : enc_state) (d : N) (data : byte),
+  cobs_push inner (s, e) data =
+  let* '(m, _) := mrun inner alg nb cobs_try_push [MvByte data] {| ms_inner := s; ms_cobs := e; ms_digest := d |} in
+  Ok (ms_inner m, ms_cobs m).
+Proof. exact @cobs_push_is_source. Qed.
+Theorem C06_cobs_finalize_is_the_source : forall (St Out : Type) (inner : sflavor St Out) (alg : crc_alg) (nb : nat)
+    (s : St) (e : enc_state) (d : N),
+  cobs_finalize inner (s, e) =
+  let* '(_, out) := mrun inner alg nb cobs_finalize_steps [] {| ms_inner := s; ms_cobs := e; ms_digest := d |} in
+  match out with Some o => Ok o | None => Panic end.
+Proof. exact @cobs_finalize_is_source. Qed.
+
+Theorem C06_modifiers_define_exactly :
+  cobs_methods = [nm_try_push; nm_finalize] /\ crc_ser_methods = [nm_try_push; nm_finalize] /\
+  crc_de_entry_points_finalize_through_the_modifier = true.
+Proof. exact modifiers_define_exactly. Qed.
+
 Print Assumptions C06_output_is_cobs.
 Print Assumptions C06_output_heapless.
 Print Assumptions C06_output_slice.
@@ -64,3 +85,6 @@ Print Assumptions C06_length.
 Print Assumptions C06_roundtrip.
 Print Assumptions C06_frames.
 Print Assumptions C06_frames_no_last_sentinel.
+Print Assumptions C06_cobs_try_push_is_the_source.
+Print Assumptions C06_cobs_finalize_is_the_source.
+Print Assumptions C06_modifiers_define_exactly.
